@@ -20,6 +20,7 @@ func checkC04(c *Ctx) {
 	ruleSticky(c)
 	ruleErrProv(c)
 	ruleLoops(c)
+	ruleAdvanceRel(c)
 	ruleUnreach(c)
 	ruleOpenKind(c)
 	ruleLPTypestate(c)
@@ -1024,11 +1025,15 @@ func ruleArity(c *Ctx) {
 func init() {
 	addControls(
 		Control{Name: "filterRaw-comment-state-stuck", Props: []string{"C04"}, File: "html_renderer.go",
-			Old: "\t\t\tif hasBytePrefix(rawHTML[i:], htmlCommentSuffix) {\n\t\t\t\tstate = copyState\n\t\t\t\ti += len(htmlCommentSuffix)\n\t\t\t} else {\n\t\t\t\ti++\n\t\t\t}", New: "\t\t\tif hasBytePrefix(rawHTML[i:], htmlCommentSuffix) {\n\t\t\t\tstate = copyState\n\t\t\t\ti += len(htmlCommentSuffix)\n\t\t\t}", Expect: "LOOP-D/(*renderState).filterRaw"},
+			Old: "\t\t\tdefault:\n\t\t\t\ti++\n\t\t\t}\n\t\tcase piState:", New: "\t\t\t}\n\t\tcase piState:", Expect: "LOOP-D/(*renderState).filterRaw"},
+		Control{Name: "filterRaw-decl-offset-relative", Props: []string{"C04"}, File: "html_renderer.go",
+			Old: "\t\t\tif rawHTML[i] == '>' {\n\t\t\t\tstate = copyState\n\t\t\t}\n\t\t\ti++", New: "\t\t\tif j := bytes.IndexByte(rawHTML[i:], '>'); j >= 0 {\n\t\t\t\tstate = copyState\n\t\t\t\ti = j + 1\n\t\t\t} else {\n\t\t\t\ti = len(rawHTML)\n\t\t\t}", Expect: "ADVANCE-REL"},
+		Control{Name: "neg-filterRaw-decl-via-IndexByte", Props: []string{"C04"}, File: "html_renderer.go", Negative: true,
+			Old: "\t\t\tif rawHTML[i] == '>' {\n\t\t\t\tstate = copyState\n\t\t\t}\n\t\t\ti++", New: "\t\t\tif j := bytes.IndexByte(rawHTML[i:], '>'); j >= 0 {\n\t\t\t\tstate = copyState\n\t\t\t\ti += j + 1\n\t\t\t} else {\n\t\t\t\ti = len(rawHTML)\n\t\t\t}"},
 		Control{Name: "declaration-scan-ignores-next", Props: []string{"C04"}, File: "parse_html.go",
 			Old: "\t\t\tfor r.current() != '>' {\n\t\t\t\tif !r.next() {\n\t\t\t\t\treturn NullSpan()\n\t\t\t\t}\n\t\t\t}", New: "\t\t\tfor r.current() != '>' {\n\t\t\t\tr.next()\n\t\t\t}", Expect: "LOOP-N/parseHTMLTag"},
 		Control{Name: "filterRaw-state-without-case", Props: []string{"C04"}, File: "html_renderer.go",
-			Old: "\t\t\t\tcase hasHTMLDeclarationPrefix(rawHTML[i:]):\n\t\t\t\t\tstate = declState", New: "\t\t\t\tcase hasHTMLDeclarationPrefix(rawHTML[i:]):\n\t\t\t\t\tstate = cdataState + 1", Expect: "UNREACH/(*renderState).filterRaw"},
+			Old: "\t\t\t\t\tstate = declState\n\t\t\t\t\ti += len(\"<!x\")", New: "\t\t\t\t\tstate = declState + 1\n\t\t\t\t\ti += len(\"<!x\")", Expect: "UNREACH/(*renderState).filterRaw"},
 		Control{Name: "urlHexDigit-wrong-shift", Props: []string{"C04"}, File: "html_renderer.go",
 			Old: "sb.WriteByte(urlHexDigit(b >> 4))", New: "sb.WriteByte(urlHexDigit(b >> 3))", Expect: "UNREACH/NormalizeURI"},
 		Control{Name: "html-match-collects-after-consume", Props: []string{"C04"}, File: "blocks.go",
@@ -1048,4 +1053,87 @@ func init() {
 		Control{Name: "neg-filterRaw-state-as-if-chain", Props: []string{"C04"}, File: "html_renderer.go", Negative: true,
 			Old: "\t\tcase declState:\n\t\t\tif rawHTML[i] == '>' {\n\t\t\t\tstate = copyState\n\t\t\t}\n\t\t\ti++", New: "\t\tcase declState:\n\t\t\tdone := rawHTML[i] == '>'\n\t\t\ti++\n\t\t\tif done {\n\t\t\t\tstate = copyState\n\t\t\t}"},
 	)
+}
+
+// ruleAdvanceRel: see ADVANCE-REL.
+func ruleAdvanceRel(c *Ctx) {
+	c.Rule("ADVANCE-REL", "In every index-driven scanning loop (header test `i < bound` on a loop-carried index that the body advances by hand), each value that flows back into the index is the index itself plus something (i + …), or the loop bound: an index recomputed from an offset that is relative to a sub-slice (i = j + 3 for j := bytes.Index(x[i:], …)) can move backwards and the loop never ends.")
+	p := c.P
+	n := 0
+	for _, fn := range p.Funcs {
+		for li, l := range naturalLoops(fn) {
+			l := l
+			iff := blockIf(l.header)
+			if iff == nil {
+				continue
+			}
+			bo, ok := iff.Cond.(*ssa.BinOp)
+			if !ok || bo.Op != token.LSS {
+				continue
+			}
+			ph, ok := bo.X.(*ssa.Phi)
+			if !ok || ph.Block() != l.header {
+				continue
+			}
+			bound := bo.Y
+			// back-edge values
+			var updates []ssa.Value
+			for i, pr := range l.header.Preds {
+				if l.body[pr] && l.header.Dominates(pr) {
+					updates = append(updates, ph.Edges[i])
+				}
+			}
+			if len(updates) < 2 {
+				continue // a plain counting loop (i++ only) or range loop
+			}
+			n++
+			key := fmt.Sprintf("%s:loop#%d", shortFuncName(fn), li+1)
+			// does v contain ph as an additive term (through phis and additions), or is it the bound?
+			var rel func(v ssa.Value, seen map[ssa.Value]bool) bool
+			rel = func(v ssa.Value, seen map[ssa.Value]bool) bool {
+				if v == ssa.Value(ph) || sameValueDeep(v, bound) {
+					return true
+				}
+				if seen[v] {
+					return true
+				}
+				seen[v] = true
+				switch x := v.(type) {
+				case *ssa.BinOp:
+					if x.Op == token.ADD {
+						return rel(x.X, seen) || rel(x.Y, seen)
+					}
+					if x.Op == token.SUB {
+						return rel(x.X, seen)
+					}
+				case *ssa.Phi:
+					for _, e := range x.Edges {
+						if !rel(e, seen) {
+							return false
+						}
+					}
+					return true
+				case *ssa.Call:
+					if cl, ok := isBuiltinCall(x, "len"); ok {
+						if bl, ok := isBuiltinCall(bound, "len"); ok && cl.Call.Args[0] == bl.Call.Args[0] {
+							return true
+						}
+					}
+				}
+				return false
+			}
+			var bad []string
+			for _, u := range updates {
+				if !rel(u, map[ssa.Value]bool{}) {
+					bad = append(bad, describeValue(u))
+				}
+			}
+			pos := l.header.Instrs[0].Pos()
+			c.Check(len(bad) == 0, "ADVANCE-REL", key, pos, "the scan index is set to a value that is not relative to its previous value: "+strings.Join(bad, ", "))
+		}
+	}
+	c.Analysed["hand_advanced_scanning_loops"] = n
+	if n < 2 {
+		c.Undecided("ADVANCE-REL", "instance-count", token.NoPos, fmt.Sprintf("%d hand-advanced scanning loops found, at least 2 confirmed by hand (filterRaw, parseInfoString)", n))
+	}
 }
